@@ -636,8 +636,59 @@ theorem group_of_unavailable_import (vfs : Vfs) (who : Who) (th href media a : S
     cascRule vfs who th (.imp href media false a b) = ⟨.ok [x], l⟩ := by
   simp [cascRule, keep1, h]
 
+/-- C19-kept-import-not-rebased in general: the re-basing step of a merged group maps url() values and leaves every
+@import rule of the flattened target as it is — the kept @imports arrive with the hrefs they had -/
+theorem rebasing_leaves_kept_imports (href : Str) (inner rebased : Sheet) (log : List Str)
+    (h : replaceUrls (replacer href) (fun _ => (false, [], [])) true inner = .ok (rebased, log)) :
+    rebased.filter isImp = inner.filter isImp := by
+  simp only [replaceUrls, ↓reduceIte] at h
+  split at h
+  · simp at h
+  · rename_i b hb
+    simp at h
+    rw [← h.1]
+    exact replRules_keeps_imports _ inner b.1 b.2 hb
+
+/-- T19.3, fetching [generalised from `flatten_fetches_nothing_partial` to trees with kept imports]: when the target
+of every @import, at any depth, was found when the sheet was loaded, `resolveImports` calls no fetcher — whether or
+not @imports have to be kept because they cannot be wrapped — for every tree without @namespace rules.
+(An @import whose target was NOT found is looked for again: `group_of_unavailable_import`, the known finding.) -/
+theorem flatten_fetches_nothing_when_all_found (vfs : Vfs) (who : Who) (href : Str) (sheet : Sheet)
+    (hn : noNsL sheet = true) (hf : allFoundL sheet = true) :
+    (resolveImports vfs who href sheet).log = [] := by
+  rw [resolveImports_is_flatSpec vfs who href sheet hn]
+  have := (cascRules_found vfs who sheet href hf).1
+  unfold flatSpec
+  cases hc : (cascRules vfs who href sheet).val <;> simp [this, hc]
+
 section
 open CssVerif.Proto
+
+/-- non-vacuity of `flatten_fetches_nothing_when_all_found` with a kept @import: `@import "b.css" print;`,
+`b.css` = `@page{}` -/
+example : noNsL [.imp (cps "b.css") (cps "print") true (cps "http://h/b.css") [.page [] [] []]] = true ∧
+    allFoundL [.imp (cps "b.css") (cps "print") true (cps "http://h/b.css") [.page [] [] []]] = true := by decide
+
+/-- non-vacuity of `rebasing_leaves_kept_imports` -/
+example : replaceUrls (replacer (cps "css/a.css")) (fun _ => (false, [], [])) true
+      [.imp (cps "b.css") (cps "print") true (cps "http://h/css/b.css") [.page [] [] []],
+       .style (cps "a") [⟨cps "background", [.uri (cps "i.png")], []⟩]]
+    = .ok ([.imp (cps "b.css") (cps "print") true (cps "http://h/css/b.css") [.page [] [] []],
+       .style (cps "a") [⟨cps "background", [.uri (cps "css/i.png")], []⟩]], [cps "i.png"]) := by
+  have : replacer (cps "css/a.css") (cps "i.png") = .ok (cps "css/i.png") := by decide
+  simp [replaceUrls, replRules, replRule, replStyle, replComps, replComp, this]
+
+/-- non-vacuity of `group_of_merged_import`, `group_of_wrapped_import`, `group_of_unavailable_import` -/
+example : cascRules [] .user (cps "http://h/a.css") [.style (cps "a") []] = ⟨.ok [.style (cps "a") []], []⟩ ∧
+    replRules (replacer (cps "a.css")) (hoist [.style (cps "a") []]) = .ok ([.style (cps "a") []], []) ∧
+    keepAll [] .user (cps "http://h/m.css") [.style (cps "a") []] = ⟨.ok [.style (cps "a") []], []⟩ ∧
+    ([Rule.style (cps "a") []]).all combinable = true ∧
+    setHref ([] : Vfs).length.succ.succ [] .user [cps "http://h/m.css"] (cps "x.css") mediaAll
+      = ⟨.ok (notLoaded (cps "x.css") mediaAll), [(.user, cps "http://h/x.css")]⟩ := by
+  refine ⟨rfl, rfl, rfl, rfl, ?_⟩
+  have : urljoin (cps "http://h/m.css") (cps "x.css") = .ok (cps "http://h/x.css") := by decide
+  have hne : ¬ cps "http://h/x.css" = cps "http://h/m.css" := by decide
+  simp [setHref, this, vfsLookup, hne]
 
 /-- non-vacuity of `resolveImports_flat_kept_partial`, and the three known findings read off the specification:
 main = `@import "a.css"; @import "b.css" print; @import "x.css";` with `a.css` = `a{}`, `b.css` = `@page{}` (cannot be
